@@ -8,8 +8,10 @@
 import hashlib
 
 from ufl.algorithms.domain_analysis import canonicalize_metadata
+from ufl.argument import BaseArgument
 from ufl.classes import (
     Argument,
+    BaseFormOperator,
     Coefficient,
     Constant,
     ConstantValue,
@@ -93,7 +95,20 @@ def compute_terminal_hashdata(expressions, renumbering):
     return terminal_hashdata
 
 
-def compute_expression_hashdata(expression, terminal_hashdata) -> bytes:
+def compute_base_form_operator_hashdata(expr, renumbering):
+    """Compute hashdata for the data a BaseFormOperator carries besides its operands."""
+    return (
+        expr.derivatives,
+        expr.ufl_function_space()._ufl_signature_data_(renumbering),
+        tuple(
+            arg._ufl_signature_data_(renumbering)
+            for arg in expr.argument_slots()
+            if isinstance(arg, BaseArgument)
+        ),
+    )
+
+
+def compute_expression_hashdata(expression, terminal_hashdata, renumbering=None) -> bytes:
     """Compute expression hashdata."""
     cache: dict[UFLObject, bytes] = {}
 
@@ -105,6 +120,9 @@ def compute_expression_hashdata(expression, terminal_hashdata) -> bytes:
             data = [terminal_hashdata[expr]]
         else:
             data = [expr._ufl_typecode_]
+            if renumbering is not None and isinstance(expr, BaseFormOperator):
+                # Derivatives, function space and arguments are not operands
+                data += [compute_base_form_operator_hashdata(expr, renumbering)]
 
             for op in expr.ufl_operands:
                 data += [cache[op]]
@@ -120,7 +138,7 @@ def compute_expression_signature(expr, renumbering):  # FIXME: Fix callers
     terminal_hashdata = compute_terminal_hashdata([expr], renumbering)
 
     # Build hashdata for full expression
-    expression_hashdata = compute_expression_hashdata(expr, terminal_hashdata)
+    expression_hashdata = compute_expression_hashdata(expr, terminal_hashdata, renumbering)
 
     # Pass it through a seriously overkill hashing algorithm
     # (should we use sha1 instead?)
@@ -141,7 +159,9 @@ def compute_form_signature(form, renumbering):  # FIXME: Fix callers
     hashdata = []
     for integral in integrals:
         # Compute hash data for expression, this is the expensive part
-        integrand_hashdata = compute_expression_hashdata(integral.integrand(), terminal_hashdata)
+        integrand_hashdata = compute_expression_hashdata(
+            integral.integrand(), terminal_hashdata, renumbering
+        )
 
         domain_hashdata = integral.ufl_domain()._ufl_signature_data_(renumbering)
         # Note that integral.extra_domain_integral_type_map() has been sorted by domain.
